@@ -95,6 +95,14 @@ def run(ctx):
                 la.append(secretlib.build(tpl, s))
                 lb.append(secretlib.build(tpl, s2))
                 ms.append((tpl, s, s2, ("", ""), " (template has trailing text)"))
+        # secrets that are a reserved word in ANOTHER letter case: not reserved words (the list is matched as given), so they are secrets like any other
+        for tpl, sec in (("enable password {}", "Cisco"), ("snmp-server community {} RO", "ADMIN"), ("username ops password {}", "Private"), ("enable password {}", "Management")):
+            if sec.lower() not in textgen.reserved_words() or sec in textgen.reserved_words():
+                continue
+            s2 = "".join(rng.choice("ghijkmnopq") for _ in sec)
+            la.append(secretlib.build(tpl, sec))
+            lb.append(secretlib.build(tpl, s2))
+            ms.append((tpl, sec, s2, ("", ""), ""))
         # the AWS forms: a 32-character field
         for tpl in secretlib.AWS:
             s = "".join(rng.choice(textgen.MD5CHARS[:62] + "_") for _ in range(32))
